@@ -182,7 +182,7 @@ fn main() {
     }
     if !is_replay {
         let mut rng = ctx.rng();
-        for _ in 0..ctx.size(60, 900) {
+        for _ in 0..ctx.size(90, 900) {
             if w.used % 40 == 39 {
                 w = World::new();
             }
